@@ -248,6 +248,18 @@ class Proofs:
                     continue
                 self.expect_accept('check_proof', lambda: cp.check_proof(cell, H), W)
                 R.check(cell[0].get_hash(0) == H and cell[0].hash == child.hash, 'proof-child-hashes', 'get_hash(0) / hash of the proof child differ from spec', W)
+                # a proof that went through Python's copy / pickle protocols (cached, passed between processes) is the same proof
+                if route == 'boc':
+                    import copy as _copy
+                    import pickle as _pickle
+                    for pname, mk in (('copy.copy', lambda: _copy.copy(cell)), ('copy.deepcopy', lambda: _copy.deepcopy(cell)), ('pickle', lambda: _pickle.loads(_pickle.dumps(cell))),
+                                      ('Cell.copy', lambda: cell.copy())):
+                        st2, c2 = mon.call(mk)
+                        if st2 == 'exc':
+                            R.cover('protocol_copy_unsupported', pname)      # a cell that cannot be copied that way is not a wrong copy
+                            continue
+                        self.expect_accept(f'check_proof[{pname}]', lambda: cp.check_proof(c2, H), dict(W, copied_by=pname))
+                        R.count('protocol_copies_of_proofs')
             R.case(mon.fp('gp', H, tuple(sorted(chosen))), sample={'cells': len(gen.all_cells(tree)), 'pruned_subtrees': len(chosen)})
             R.cover('pruned_counts', min(len(chosen), 8))
             # ---- soundness on this proof
